@@ -23,8 +23,9 @@ MANIFEST = {
             "single-byte corruptions, truncations and extensions of valid serialisations.",
     "note": "Key validity and public-key parsing are oracles (our own EC arithmetic); sha256 is an oracle with a length "
             "hypothesis; the Bech32 text layer of SLIP-32 is an abstract codec in the theorems and a BIP-173 reference "
-            "implementation in the correspondence run. F12 (SLIP-32 short payload -> IndexError) is modelled faithfully and "
-            "counted under C14.",
+            "implementation in the correspondence run. F12 (SLIP-32 short payload -> IndexError) has been repaired in /repo "
+            "(now ValueError); the model follows the repaired code and proves that only ValueError / Bech32 errors escape. "
+            "Open finding C05-KHOLAW-ZERO-SCALAR: a Kholaw private key with a zero scalar is rejected with a bare ValueError.",
     "technique": "Coq proof (list slicing / fixed-width integer lemmas on top of the Base58 canonicity proofs) + "
                  "generated-constant obligations + extracted-model differential run + direct spec recomputation",
     "ref": "7/C05",
@@ -337,6 +338,50 @@ def known_kholaw_zero_scalar_replay():
     return None
 
 
+# ------------------------------------------------------------------ every coin: Bip44/49/84/86/Cip1852.FromExtendedKey
+
+def _bips():
+    from bip_utils import (Bip44, Bip49, Bip84, Bip86, Cip1852, Bip44Coins, Bip49Coins, Bip84Coins, Bip86Coins, Cip1852Coins)
+    return [(Bip44, Bip44Coins), (Bip49, Bip49Coins), (Bip84, Bip84Coins), (Bip86, Bip86Coins), (Cip1852, Cip1852Coins)]
+
+
+def impl_coin_keys(a):
+    bi, coin_name, seed, account_level = a
+    cls, enum = _bips()[bi]
+    o = cls.FromSeed(seed, enum[coin_name])
+    if account_level:
+        o = o.Purpose().Coin().Account(0)
+    return [o.PrivateKey().ToExtended(), o.PublicKey().ToExtended()]
+
+
+def direct_coin_keys(a):
+    """the coin-level objects: version bytes of the coin's table, depth, 78/110 bytes, parse back to the same strings"""
+    bi, coin_name, seed, account_level = a
+    cls, enum = _bips()[bi]
+    coin = enum[coin_name]
+    try:
+        xprv, xpub = impl_coin_keys(a)
+    except Exception:  # noqa  -- seeds a coin's master-key generator refuses are not this property's business
+        return None
+    from bip_utils.bip.conf.common import BipCoinConf  # noqa
+    o = cls.FromSeed(seed, coin)
+    ver = o.Bip32Object().KeyNetVersions()
+    for s, v, lens in ((xprv, ver.Private(), (78, 110)), (xpub, ver.Public(), (78,))):
+        data = b58dec(s)[:-4]
+        if data[:4] != v or len(data) not in lens or data[4] != (3 if account_level else 0):
+            return "%s %s: serialisation %s does not carry the coin's version bytes / depth / length" % (cls.__name__, coin_name, s)
+    if (ver.Public(), ver.Private()) not in PAIRS:
+        return "version pair of %s not in the generated table" % coin_name
+    back = cls.FromExtendedKey(xprv, coin)
+    if back.PrivateKey().ToExtended() != xprv or back.PublicKey().ToExtended() != xpub:
+        return "%s %s: FromExtendedKey(xprv) does not re-serialise identically" % (cls.__name__, coin_name)
+    if account_level:
+        backp = cls.FromExtendedKey(xpub, coin)
+        if backp.PublicKey().ToExtended() != xpub or not backp.IsPublicOnly():
+            return "%s %s: FromExtendedKey(xpub) does not re-serialise identically" % (cls.__name__, coin_name)
+    return None
+
+
 def _m(name, zpos=()):
     def f(m, a):
         a = [Z(x) if k in zpos else x for k, x in enumerate(a)]
@@ -354,6 +399,7 @@ FUNCS = {
     "c05_from_extended": Func(model=_m("c05_from_extended"), impl=impl_from_extended, direct=direct_from_extended),
     "c05_deserialize": Func(model=_m("c05_deserialize"), impl=impl_deserialize),
     "c05_reserialize": Func(model=_m("c05_reserialize"), impl=impl_reserialize),
+    "c05_coin_keys": Func(model=None, impl=impl_coin_keys, direct=direct_coin_keys),
     "slip32_ser_priv": Func(model=_m("slip32_ser_priv"), impl=impl_slip32_ser_priv, direct=direct_slip32("priv")),
     "slip32_ser_pub": Func(model=_m("slip32_ser_pub"), impl=impl_slip32_ser_pub, direct=direct_slip32("pub")),
     "slip32_deserialize": Func(model=_m("slip32_deserialize"), impl=impl_slip32_deser),
@@ -561,7 +607,19 @@ def gen_slip32(ctx):
         ctx.run("slip32_deserialize", hp + [ref.bech32_enc(hrp, payload).str()], "payload-damage")
 
 
+def gen_coins(ctx):
+    rng = ctx.rng
+    seeds = [bytes(range(64)), rb(rng, 64)] if ctx.quick else [bytes(range(64)), rb(rng, 64), rb(rng, 32), rb(rng, 64)]
+    for bi, (cls, enum) in enumerate(_bips()):
+        for coin in enum:
+            for seed in (seeds[:1] if ctx.quick and bi == 0 else seeds[:2] if ctx.quick else seeds):
+                ctx.run("c05_coin_keys", [bi, coin.name, seed, rng.randrange(2)], "coins")
+    ctx.note_exhaustive("every member of Bip44Coins, Bip49Coins, Bip84Coins, Bip86Coins, Cip1852Coins: master or account-level "
+                        "xprv/xpub carry the coin's version bytes and parse back identically (direct check)")
+
+
 def generate(ctx):
+    gen_coins(ctx)
     valid = gen_fields(ctx)
     corruptions(ctx, valid)
     gen_kholaw_degenerate(ctx)
